@@ -408,21 +408,23 @@ def harness_of(lib, tr, lhs, rhs, outs):
                 return ("un abs", "r" if ref else "v")
             if tr == "UnsignedAbs":
                 return ("un abs", "ur" if ref else "uv")
+            if ref:
+                return None
             return ("un root " + lb, {"SquareRoot": "sqrt_t", "SquareRootRem": "sqrtrem_t", "CubicRoot": "cbrt_t", "CubicRootRem": "cbrtrem_t"}[tr])
         if lb == "FBig":
             if tr == "Neg":
                 return ("fu neg", "r" if ref else "v")
-            if tr == "Abs":
+            if tr == "Abs" and not ref:
                 return ("fu abs", "v")
             if tr == "Inverse":
                 return ("fu inv", "r" if ref else "v")
-            if tr == "SquareRoot":
+            if tr == "SquareRoot" and not ref:
                 return ("fm sqrt", "m")
         if lb in ("RBig", "Relaxed"):
             k = "qu" if lb == "RBig" else "xu"
             if tr == "Neg":
                 return (k + " neg", "r" if ref else "v")
-            if tr == "Abs":
+            if tr == "Abs" and not ref:
                 return (k + " abs", "v")
             if tr == "Inverse":
                 return (k + " inv", "r" if ref else "v")
@@ -447,13 +449,17 @@ def harness_of(lib, tr, lhs, rhs, outs):
             return None
         big = lb if rb == "Sign" else rb
         probe = {"IBig": "un mulsign", "UBig": "un umulsign", "FBig": "fu mulsign", "RBig": "qu mulsign", "Relaxed": "xu mulsign"}.get(big)
-        if probe is None:
+        if probe is None or lhs.startswith("&") or rhs.startswith("&"):
+            return None
+        if lb == "Sign" and big in ("RBig", "Relaxed"):
             return None
         return (probe, "as" if asg else ("xs" if rb == "Sign" else "sx"))
     if rb == "Rounding":
+        if rhs.startswith("&") or lb != "IBig" or t0 != "Add":
+            return None
         return ("un addround", "a" if asg else ("r" if lhs.startswith("&") else "v"))
     if rb == "ConstDivisor":
-        if t0 not in ("Div", "Rem", "DivRem"):
+        if t0 not in ("Div", "Rem", "DivRem") or not rhs.startswith("&") or lb not in ("UBig", "IBig"):
             return None
         k = "cdu" if lb == "UBig" else "cdi"
         nm = {"Div": "div", "Rem": "rem", "DivRem": "divrem"}[t0]
@@ -466,7 +472,7 @@ def harness_of(lib, tr, lhs, rhs, outs):
             if asg:
                 return ("%s %s" % (k, o), "a_rn" if rhs.startswith("&") else "a_n")
             return ("%s %s" % (k, o), ("r" if lhs.startswith("&") else "v") + ("_rn" if rhs.startswith("&") else "_n"))
-        if lb == "FBig" and rb == "isize":
+        if lb == "FBig" and rb == "isize" and not lhs.startswith("&") and not rhs.startswith("&"):
             return ("fsh " + o, "a" if asg else "v")
         return None
     # ---- integers
